@@ -129,6 +129,15 @@ def _pointer_escapes(ctx, p, funcs):
                 x = kids(n)[0]
                 if x['k'] == 'ArraySubscriptExpr' or (x['k'] == 'CXXOperatorCallExpr' and x.get('op') == '[]'):
                     inner = x
+                    # the address of one element picked by a constant inside the extent, of scalar type: a pointer to that
+                    # scalar, not a way into the rest of the buffer unless arithmetic is done on it (no such use is known)
+                    if x['k'] == 'ArraySubscriptExpr':
+                        ci = const_of(strip_casts(kids(x)[1]))
+                        bt = (strip_casts(kids(x)[0]).get('t') or '') if kids(x) else ''
+                        bt = bt or (kids(kids(x)[0])[0].get('t') if kids(x)[0]['k'] == 'ImplicitCastExpr' and kids(kids(x)[0]) else '')
+                        m_ = re.search(r'\[(\d+)\]$', bt or '')
+                        if ci is not None and m_ and 0 <= ci < int(m_.group(1)) and '[' not in (x.get('t') or ''):
+                            inner = None
             elif n['k'] == 'CXXMemberCallExpr' and short((n.get('callee') or {}).get('n', '')) == 'data' and \
                     'std::array' in n['callee']['n']:
                 inner = n
@@ -828,6 +837,9 @@ def _buffer_capacity(p, f, arg, site=None):
     r = arg.get('ref', {})
     if r.get('k') == 'Local':
         d = single_def(f, r['id'])
+        if d is None and arg.get('i') is not None and arg['i'] >= 0:
+            from rules.effects import reaching_def
+            d = reaching_def(f, arg)          # the one assignment that reaches this use (if/else arms each defining the pointer)
         if d is not None:
             return _buffer_capacity(p, f, d, site)
         for n in f.all_nodes():
